@@ -164,6 +164,8 @@ Lemma fref_ctor_wf_old_refuted :
   fref_ctor_wf_old_m QR RV = true /\ fref_ctor_wf_spec QR RV = false /\ fref_ctor_wf_old_m QL RV = false /\ fref_ctor_wf_spec QL RV = true.
 Proof. repeat split; reflexivity. Qed.
 
+Lemma memptr_target_agrees : forall x, memptr_target_m x = memptr_target_spec x.
+Proof. intros x. unfold memptr_target_m, memptr_target_spec. f_equal. lia. Qed.
 Lemma wrapcopy_agrees : forall x y, wrapcopy_m x y = wrapcopy_spec x y.
 Proof.
   intros x y. unfold wrapcopy_m, wrapcopy_spec.
